@@ -117,10 +117,10 @@ def grow_not_skip(chk, tier, seed):
     """C12, consumer half: after 'fetch size too small' the next fetch has the same offset and the next buffer size."""
     def alias(clause, step):
         # what the consumer does with 'fetch size too small' (same offset, next buffer size, never past the message)
-        if clause in ("C14.growth", "C02.fetch_position") and step["e"]["a"] == "FetchDone" and step["e"]["w"] == [-1]:
+        if clause in ("C14.growth", "C02.fetch_position", "C13.start_result") and step["e"]["a"] == "FetchDone" and step["e"]["w"] == [-1]:
             return "C12.grow_not_skip"
         return None
-    run_consumer(chk, "C12", tier, seed, alias=alias, only=("group-n2-tick-async", "nogroup-async-noreset-limit2"))
+    run_consumer(chk, "C12", tier, seed, alias=alias, only=("group-n1-sync-latest", "nogroup-async-noreset-limit2", "nogroup-sync-bigbuf"))
 
 
 def main(prop, tier, seed, replay_file):
